@@ -345,6 +345,8 @@ def malformed_cases(r, n):
             line = r.choice(KEYWORDS) + random_bytes(r, r.below(80))
         elif k == 2:
             line = r.choice(KEYWORDS)[:r.below(20)] + word(r, 0, 30, NAMECH + "   ")
+        elif k == 3:
+            line = splice_cases(r, 1)[0]["line"]
         else:
             form = r.choice(list(FORMS.keys()))
             line = mutate(r, build(form, fields_for(r, form, adversarial=r.chance(1, 3))))
@@ -353,6 +355,49 @@ def malformed_cases(r, n):
         pid = r.choice(PIDS_ODD) if r.chance(1, 3) else r.choice(PIDS_OK)
         out.append({"form": None, "fields": None, "pid": pid, "line": line, "ok": r.choice(["ok", "ok", "ok", "fail"]),
                     "h": r.choice(["ready", "ready", "cancel"])})
+    return out
+
+
+LONG_OK = {"u", "k", "f", "sh", "d", "r", "sum", "fp", "cf"}
+LONGCH = "abcdefghijklmnopqrstuvwxyz0123456789"
+
+
+def long_cases(r, n, oks=("ok",), hands=("ready",)):
+    """messages with one field of 4-12 kB (beyond one and two bufio buffers): long certificate key ids, reasons, paths,
+    names; the filler is random so that a record whose bytes get mixed up cannot look right"""
+    out = []
+    forms = [f for f in FORMS if any(x in LONG_OK for x in FORMS[f])]
+    for i in range(n):
+        form = forms[i % len(forms)]
+        fs = fields_for(r, form)
+        idx = [j for j, x in enumerate(FORMS[form]) if x in LONG_OK]
+        j = r.choice(idx)
+        L = r.choice([4000 + r.below(200), 4090 + r.below(12), 8100 + r.below(200), 5000 + r.below(3000), 12000 + r.below(500)])
+        fs[j] = fs[j] + word(r, L, L, LONGCH)
+        out.append({"form": form, "fields": fs, "pid": r.choice(PIDS_OK), "line": build(form, fs), "ok": r.choice(list(oks)), "h": r.choice(list(hands)), "long": True})
+    return out
+
+
+def splice_cases(r, n):
+    """a line that begins with the keyword of one message (cut short, or followed by a little junk) and goes on with a
+    complete message of another (or the same) form, ending exactly there or with a little more text"""
+    out = []
+    forms = list(FORMS.keys())
+    for i in range(n):
+        head = r.choice(KEYWORDS)
+        k = r.below(5)
+        if k == 0:
+            head = head[:1 + r.below(len(head))]
+        elif k == 1:
+            head = head + " " + word(r, 0, 6)
+        elif k == 2:
+            head = head + r.choice([":", " for", " for ", " from ", "  ", " x y "])
+        form = forms[(i // 2) % len(forms)] if i % 3 else r.choice(ACCEPTED)
+        body = build(form, fields_for(r, form))
+        tail = "" if r.below(3) else r.choice([" ", " x", ": y", " ID z (serial 1) CA RSA SHA256:q", "\n"])
+        sep = r.choice(["", " ", " ", ": "])
+        out.append({"form": None, "fields": None, "pid": r.choice(PIDS_OK + PIDS_ODD[:3]), "line": head + sep + body + tail,
+                    "ok": r.choice(["ok", "ok", "fail"]), "h": r.choice(["ready", "ready", "cancel"])})
     return out
 
 
